@@ -137,7 +137,17 @@ package memmetrics
 //@ pred metricsOK(m *RTMetrics) = m != nil && counterOK(m.total) && counterOK(m.netErrors) && m.total != m.netErrors && backing(m.total.values) != backing(m.netErrors.values)
 
 //@ type RTMetrics
-//@   immutable total netErrors histogram newCounter newHist
+//@   immutable total netErrors newCounter newHist statusCodesLock histogramLock
+//@   guarded_by statusCodesLock: statusCodes
+//@   guarded_by histogramLock: histogram
+
+//@ type RollingHDRHistogram
+//@   extsync
+//@   mutators Append Reset rotate getHist RecordLatencies RecordValues
+
+//@ type HDRHistogram
+//@   extsync
+//@   mutators RecordLatencies Reset RecordValues Merge
 
 //@ func (*RTMetrics).Reset
 //@   props C18
@@ -174,3 +184,21 @@ package memmetrics
 //@   modifies elems(m.total.values), elems(m.netErrors.values), m.total.tclean, m.netErrors.tclean
 //@   ensures empty_is_zero: callres(Count, 0, 0) == 0 ==> result == 0.0 && callarg(Count, 0, 0) == m.total
 //@   ensures ratio: calls(Count) == 3 && callres(Count, 0, 0) != 0 ==> callarg(Count, 1, 0) == m.netErrors && callarg(Count, 2, 0) == m.total && result == real(callres(Count, 1, 0)) / real(callres(Count, 2, 0))
+
+//@ func (*RTMetrics).LatencyHistogram
+//@   props C18
+//@   trusted
+//@   requires m != nil
+//@   modifies everything
+//@   ensures histogram_or_error: result1 == nil ==> result0 != nil
+
+//@ func (*RTMetrics).ResponseCodeRatio
+//@   props C18
+//@   trusted
+//@   requires m != nil
+//@   modifies everything
+
+//@ func (*HDRHistogram).LatencyAtQuantile
+//@   props C18
+//@   trusted
+//@   requires h != nil
